@@ -334,7 +334,7 @@ var feedOps = []string{"a0", "a1", "a2", "p0", "p1", "p2", "u", "d", "c"}
 func TestFeedEnum(t *testing.T) {
 	maxLen := 5
 	if os.Getenv("VERIF_TIER") == "thorough" {
-		maxLen = 7
+		maxLen = 6
 	}
 	vrep.Each(t, "FeedEnum", false, true, func(yield func(FeedCase) bool) {
 		for _, cr := range feedCreates {
